@@ -133,3 +133,76 @@ Example py_replace_examples :
   removesuffix "" "abc" = "abc" /\ removesuffix "zz" "abc" = "abc" /\
   split_first "_auto_loc" "xc_0_auto_loc" = "xc_0" /\ dec 12 = "12" /\ contains "theta" "bspl_w_theta" = true.
 Proof. vm_compute. repeat split; reflexivity. Qed.
+
+(* ---------- keys of the form  p ++ "_" ++ dec i ++ suffix ---------- *)
+
+Lemma append_assoc (a b c : string) : (a ++ b) ++ c = a ++ (b ++ c).
+Proof. induction a as [|x a IH]; simpl; [reflexivity|rewrite IH; reflexivity]. Qed.
+
+Lemma append_nil_r (a : string) : a ++ EmptyString = a.
+Proof. induction a as [|x a IH]; simpl; [reflexivity|rewrite IH; reflexivity]. Qed.
+
+Lemma append_inv_head (a b c : string) : a ++ b = a ++ c -> b = c.
+Proof. induction a as [|x a IH]; simpl; intros H; [assumption|]. inversion H. auto. Qed.
+
+(* right cancellation *)
+Lemma append_inv_tail (a b s : string) : a ++ s = b ++ s -> a = b.
+Proof.
+  revert b; induction a as [|x a IH]; intros b H.
+  - destruct b as [|y b]; [reflexivity|]. apply (f_equal String.length) in H.
+    simpl in H. rewrite length_append in H. lia.
+  - destruct b as [|y b].
+    + apply (f_equal String.length) in H. simpl in H. rewrite length_append in H. lia.
+    + simpl in H. inversion H; subst. f_equal. apply IH. assumption.
+Qed.
+
+(* split at the LAST underscore *)
+Fixpoint rsplit_us (s : string) : option (string * string) :=
+  match s with
+  | EmptyString => None
+  | String c s' =>
+    match rsplit_us s' with
+    | Some (a, d) => Some (String c a, d)
+    | None => if Ascii.eqb c "_"%char then Some (EmptyString, s') else None
+    end
+  end.
+
+Fixpoint no_us (s : string) : bool :=
+  match s with
+  | EmptyString => true
+  | String c s' => negb (Ascii.eqb c "_"%char) && no_us s'
+  end.
+
+Lemma rsplit_us_none d : no_us d = true -> rsplit_us d = None.
+Proof.
+  induction d as [|c d IH]; simpl; intros H; [reflexivity|].
+  apply andb_true_iff in H. destruct H as [H1 H2]. rewrite (IH H2).
+  destruct (Ascii.eqb c "_"); [discriminate|reflexivity].
+Qed.
+
+Lemma rsplit_us_app a d : no_us d = true -> rsplit_us (a ++ "_" ++ d) = Some (a, d).
+Proof.
+  intros Hd. induction a as [|c a IH].
+  - cbn [append rsplit_us]. rewrite (rsplit_us_none d Hd). reflexivity.
+  - change (String c a ++ "_" ++ d) with (String c (a ++ "_" ++ d)). cbn [rsplit_us]. rewrite IH. reflexivity.
+Qed.
+
+(* decimal numerals contain no underscore *)
+Lemma no_us_uint u : no_us (NilEmpty.string_of_uint u) = true.
+Proof. induction u; simpl; auto. Qed.
+
+Lemma no_us_dec n : no_us (dec n) = true.
+Proof. apply no_us_uint. Qed.
+
+(* the per-source key determines the parameter name and the source index *)
+Definition source_key (p : string) (i : nat) (sfx : string) : string := p ++ "_" ++ dec i ++ sfx.
+
+Lemma source_key_inj p i p' i' sfx : source_key p i sfx = source_key p' i' sfx -> p = p' /\ i = i'.
+Proof.
+  unfold source_key. intros H.
+  rewrite <- !append_assoc in H. apply append_inv_tail in H.
+  rewrite !append_assoc in H.
+  assert (H1 := rsplit_us_app p (dec i) (no_us_dec i)).
+  assert (H2 := rsplit_us_app p' (dec i') (no_us_dec i')).
+  rewrite H in H1. rewrite H1 in H2. inversion H2; subst. split; [reflexivity|]. apply dec_inj. assumption.
+Qed.
